@@ -394,12 +394,16 @@ fn skip_white_space(text: &[u8]) -> DeResult {
 /// Markup, comments and skipped parts are covered as well as the text that becomes data.
 fn check_characters(xml: &[u8]) -> DeResult {
     let text = std::str::from_utf8(xml).map_err(|_| DeError::InvalidContent)?;
-    let is_xml_char = |c: char| matches!(c, '\t' | '\n' | '\r' | '\u{20}'..='\u{D7FF}' | '\u{E000}'..='\u{FFFD}' | '\u{10000}'..);
     if text.chars().all(is_xml_char) {
         Ok(())
     } else {
         Err(DeError::InvalidContent)
     }
+}
+
+/// The `Char` production of XML 1.0
+const fn is_xml_char(c: char) -> bool {
+    matches!(c, '\t' | '\n' | '\r' | '\u{20}'..='\u{D7FF}' | '\u{E000}'..='\u{FFFD}' | '\u{10000}'..)
 }
 
 /// No attribute carries a value for this decoder, but a start tag whose attributes
@@ -470,6 +474,10 @@ impl<'xml> DeserializeContent<'xml> for String {
     fn deserialize_content(d: &mut Deserializer<'xml>) -> DeResult<Self> {
         d.text(|t| {
             let string = t.unescape().map_err(invalid_xml)?;
+            // a character reference may only denote a character that could also be written literally
+            if !string.chars().all(is_xml_char) {
+                return Err(DeError::InvalidContent);
+            }
             Ok(string.into())
         })
     }
